@@ -747,25 +747,42 @@ impl Check for C13 {
                 if no_room {
                     out.count("second_disconnect_refused_for_lack_of_arena_room", 1);
                 }
-                for (ci, (pa, pb)) in a_obs.packets.iter().zip(&b_obs.packets).enumerate() {
-                    if bw.conns[ci].out.error.is_some() {
-                        bad = Some(format!("conn {}: the outbound stream no longer decodes: {:?}", ci, bw.conns[ci].out.error));
-                        break;
+                let judge_against = |r_obs: &Observed| -> Option<String> {
+                    let mut bad: Option<String> = None;
+                    for (ci, (pa, pb)) in r_obs.packets.iter().zip(&b_obs.packets).enumerate() {
+                        if bw.conns[ci].out.error.is_some() {
+                            bad = Some(format!("conn {}: the outbound stream no longer decodes: {:?}", ci, bw.conns[ci].out.error));
+                            break;
+                        }
+                        let pa: Vec<Vec<u8>> = if no_room { pa.iter().filter(|p| p.first() != Some(&0xE0)).cloned().collect() } else { pa.clone() };
+                        // (with the keep-alive deadline falling behind the request the PINGREQ's place
+                        // among the other packets depends on how many calls were made: not compared)
+                        let pa: Vec<Vec<u8>> = if advance_after.is_some() { pa.into_iter().filter(|p| p.first() != Some(&0xC0)).collect() } else { pa };
+                        let pa = &pa;
+                        let alt_last = a2_obs.as_ref().and_then(|o| o.packets.get(ci)).and_then(|c| c.last()).filter(|x| x.first() == Some(&0xE0));
+                        let mut it = pb.iter();
+                        if let Some(miss) = pa.iter().find(|x| !it.any(|y| y == *x || (x.first() == Some(&0xE0) && Some(y) == alt_last))) {
+                            bad = Some(format!("conn {}: {} of the uncancelled run is missing or out of order", ci, describe(miss)));
+                            break;
+                        }
+                        if pa.last().is_some_and(|x| x.first() == Some(&0xE0)) && pb.last() != pa.last() && !(alt_last.is_some() && pb.last() == alt_last) {
+                            bad = Some(format!("conn {}: does not end with the DISCONNECT of the uncancelled run", ci));
+                            break;
+                        }
                     }
-                    let pa: Vec<Vec<u8>> = if no_room { pa.iter().filter(|p| p.first() != Some(&0xE0)).cloned().collect() } else { pa.clone() };
-                    // (with the keep-alive deadline falling behind the request the PINGREQ's place
-                    // among the other packets depends on how many calls were made: not compared)
-                    let pa: Vec<Vec<u8>> = if advance_after.is_some() { pa.into_iter().filter(|p| p.first() != Some(&0xC0)).collect() } else { pa };
-                    let pa = &pa;
-                    let alt_last = a2_obs.as_ref().and_then(|o| o.packets.get(ci)).and_then(|c| c.last()).filter(|x| x.first() == Some(&0xE0));
-                    let mut it = pb.iter();
-                    if let Some(miss) = pa.iter().find(|x| !it.any(|y| y == *x || (x.first() == Some(&0xE0) && Some(y) == alt_last))) {
-                        bad = Some(format!("conn {}: {} of the uncancelled run is missing or out of order", ci, describe(miss)));
-                        break;
-                    }
-                    if pa.last().is_some_and(|x| x.first() == Some(&0xE0)) && pb.last() != pa.last() && !(alt_last.is_some() && pb.last() == alt_last) {
-                        bad = Some(format!("conn {}: does not end with the DISCONNECT of the uncancelled run", ci));
-                        break;
+                    bad
+                };
+                // (made again with other contents: the first request may have been one the
+                // connection survives - refused for lack of room - and the second one not, or the
+                // other way round: like the run that asked for the first from the start, or like
+                // the run that asked for the second)
+                bad = judge_against(&a_obs);
+                if bad.is_some() {
+                    if let Some(a2) = &a2_obs {
+                        if judge_against(a2).is_none() {
+                            out.count("polled_then_second_disconnect_went_as_asked", 1);
+                            bad = None;
+                        }
                     }
                 }
                 if let Some(msg) = bad {
